@@ -284,7 +284,11 @@ func evalPathStep(step jparse.Node, data reflect.Value, env *environment, lastSt
 		return undefined, err
 	}
 
-	if lastStep && len(results) == 1 {
+	_, isCons := step.(*jparse.ArrayNode)
+
+	// (What an array constructor makes is one item of the
+	// results, not the results themselves.)
+	if lastStep && len(results) == 1 && !isCons {
 		res := results[0]
 		if seq, ok := asSequence(res); ok {
 			res = seq.Value()
@@ -294,7 +298,6 @@ func evalPathStep(step jparse.Node, data reflect.Value, env *environment, lastSt
 		}
 	}
 
-	_, isCons := step.(*jparse.ArrayNode)
 	resultSequence := newSequence(len(results))
 
 	for _, v := range results {
